@@ -175,6 +175,9 @@ def bool_skeleton(e: ast.expr, atoms: List[ast.expr]):
         return lambda val, s=s: not s(val)
     if isinstance(e, ast.Constant) and isinstance(e.value, bool):
         return lambda val, c=e.value: c
+    if isinstance(e, ast.IfExp):
+        c_, a_, b_ = bool_skeleton(e.test, atoms), bool_skeleton(e.body, atoms), bool_skeleton(e.orelse, atoms)
+        return lambda val, c_=c_, a_=a_, b_=b_: a_(val) if c_(val) else b_(val)
     key = "".join(ast.unparse(e).split())
     for i, a in enumerate(atoms):
         if "".join(ast.unparse(a).split()) == key:
@@ -265,9 +268,11 @@ def _inline_bool_names(fn: ast.FunctionDef, e: ast.expr, at: Optional[Node], dep
             return ast.BoolOp(op=x.op, values=[inline(v) for v in x.values])
         if isinstance(x, ast.UnaryOp) and isinstance(x.op, ast.Not):
             return ast.UnaryOp(op=ast.Not(), operand=inline(x.operand))
+        if isinstance(x, ast.IfExp):
+            return ast.IfExp(test=inline(x.test), body=inline(x.body), orelse=inline(x.orelse))
         if isinstance(x, ast.Name):
             ds = flow.reaching(at, x.id)
-            if len(ds) == 1 and ds[0].kind == "assign" and not ds[0].path and isinstance(ds[0].value, (ast.BoolOp, ast.Compare, ast.UnaryOp)):
+            if len(ds) == 1 and ds[0].kind == "assign" and not ds[0].path and isinstance(ds[0].value, (ast.BoolOp, ast.Compare, ast.UnaryOp, ast.IfExp)):
                 return _inline_bool_names(fn, _copy.deepcopy(ds[0].value), ds[0].node, depth + 1)
         return x
 
